@@ -558,8 +558,11 @@ impl<'s, A: Pay + Send + Sync, B: Pay + Send + Sync> W<'s, A, B> {
         if roll < 76 {
             return self.op_with_arc_mut(i, a);
         }
-        if roll < 88 {
+        if roll < 86 {
             return self.op_unique(i, a, kind);
+        }
+        if roll < 94 {
+            return self.op_compare(i);
         }
         self.op_bad_into_thin()
     }
@@ -761,6 +764,76 @@ impl<'s, A: Pay + Send + Sync, B: Pay + Send + Sync> W<'s, A, B> {
             }
         }
         self.verify("unique-op")
+    }
+
+    /// Compare / order / hash / format thin handles, and panic inside the borrow callbacks:
+    /// results must equal those on the plain values, and no count may move.
+    fn op_compare(&mut self, i: usize) -> R {
+        use std::hash::{Hash, Hasher};
+        let used = self.used();
+        let j = *self.rng.pick(&used);
+        let (ai, aj) = (self.slots[i].as_ref().unwrap().a, self.slots[j].as_ref().unwrap().a);
+        let key = |m: &AllocM| (m.htag, m.elems.iter().map(|e| e.1).collect::<Vec<u64>>());
+        let (ki, kj) = (key(&self.allocs[ai]), key(&self.allocs[aj]));
+        let r = self.rng.below(4);
+        let mut done = "thin.compare:none";
+        if let (H2::Thin(x), H2::Thin(y)) = (&self.slots[i].as_ref().unwrap().h, &self.slots[j].as_ref().unwrap().h) {
+            match r {
+                0 | 1 => {
+                    let eq = x == y;
+                    let ord = x.cmp(y);
+                    let pord = x.partial_cmp(y);
+                    let mut h1 = std::collections::hash_map::DefaultHasher::new();
+                    x.hash(&mut h1);
+                    let mut h2 = std::collections::hash_map::DefaultHasher::new();
+                    (**x).hash(&mut h2);
+                    let dbg = format!("{:?}", x);
+                    ensure!(eq == (ki == kj), "C14", "cmp", "ThinArc == gives {} for values {:?} and {:?}", eq, ki, kj);
+                    ensure!(ord == ki.cmp(&kj) && pord == Some(ord), "C14", "cmp", "ThinArc cmp/partial_cmp = {:?}/{:?} for values {:?} and {:?}", ord, pord, ki, kj);
+                    ensure!(h1.finish() == h2.finish(), "C14", "cmp", "ThinArc hash differs from the hash of the value it holds");
+                    ensure!(dbg == format!("{:?}", &**x), "C14", "cmp", "ThinArc {{:?}} differs from the value's");
+                    done = "thin.compare:eq+cmp+hash+fmt";
+                }
+                2 => {
+                    // a panicking callback inside with_arc must not move the count
+                    let res = catch(|| x.with_arc(|_f| -> () { panic!("with_arc callback panics") }));
+                    ensure!(res.is_err(), "C07", "thin", "with_arc swallowed a panic");
+                    done = "thin.with_arc.panic";
+                }
+                _ => {
+                    // a panicking comparison / hash of the payload
+                    let k = 1 + self.rng.below(3) as i64;
+                    tk::cb_panic_at(k);
+                    let which = self.rng.below(3);
+                    let res = catch(|| match which {
+                        0 => {
+                            let _ = x == y;
+                        }
+                        1 => {
+                            let _ = x.cmp(y);
+                        }
+                        _ => {
+                            let mut h = std::collections::hash_map::DefaultHasher::new();
+                            x.hash(&mut h);
+                        }
+                    });
+                    tk::cb_panic_at(0);
+                    let _ = res;
+                    done = "thin.compare.panic";
+                }
+            }
+        } else if let (H2::Fat(x), H2::Fat(y)) = (&self.slots[i].as_ref().unwrap().h, &self.slots[j].as_ref().unwrap().h) {
+            let eq = x == y;
+            let ord = x.cmp(y);
+            ensure!(eq == (ki == kj) && ord == ki.cmp(&kj), "C14", "cmp", "fat Arc ==/cmp = {}/{:?} for values {:?} and {:?}", eq, ord, ki, kj);
+            done = "thin.compare:fat";
+        }
+        self.st.counts.bump(done);
+        // both allocations' counts are re-read by verify (light mode looks at one)
+        self.last_a = ai;
+        self.verify(done)?;
+        self.last_a = aj;
+        self.verify(done)
     }
 
     /// Fat Arcs whose recorded length is wrong must be refused by into_thin, and still be released.
